@@ -64,6 +64,8 @@ type State struct {
 	keepBase map[string]string
 	allocs   []string        // allocation constants created on this path
 	escaped  map[string]bool // ... whose address may be known to other code
+	touched  map[string]bool     // heap keys read or written on this path (so that private allocations survive a havoc for all of them)
+	held     map[string][]string // private allocation -> allocations whose address was stored inside it (they escape when it does)
 	dead    bool
 }
 
@@ -87,6 +89,18 @@ func (s *State) clone() *State {
 	n.escaped = make(map[string]bool, len(s.escaped))
 	for k := range s.escaped {
 		n.escaped[k] = true
+	}
+	if s.touched != nil {
+		n.touched = make(map[string]bool, len(s.touched))
+		for k := range s.touched {
+			n.touched[k] = true
+		}
+	}
+	if s.held != nil {
+		n.held = make(map[string][]string, len(s.held))
+		for k, v := range s.held {
+			n.held[k] = append([]string(nil), v...)
+		}
 	}
 	n.assumes = append([]string(nil), s.assumes...)
 	n.conds = append([]bool(nil), s.conds...)
@@ -435,6 +449,10 @@ const prelude = `(set-logic ALL)
 // heap
 
 func (vc *VC) heapName(st *State, key, elemSort string) string {
+	if st.touched == nil {
+		st.touched = map[string]bool{}
+	}
+	st.touched[key] = true
 	if n, ok := st.heap[key]; ok {
 		return n
 	}
